@@ -66,9 +66,20 @@ Definition spec_explanation (dir : option (str * str)) : option str :=
 (* streams in which no line can open a YAML block *)
 Definition no_yaml (lines : list str) : Prop := forall l, In l lines -> yaml_start l = None.
 
-(* every line short: the guard under which no conversion hits CPython's limit *)
-Definition short_lines (lines : list str) : Prop :=
-  (forall l, In l lines -> (length l <= 4299)%nat) /\ N.of_nat (length lines) < 10 ^ 4299.
+(* the only guard left on "the parser never raises" (with the fix C18-int-max-str-digits): the
+   stream has fewer than 10^4299 lines, so that counting up from a 100-digit number cannot reach
+   the 4300 digits str() refuses *)
+Definition few_lines (lines : list str) : Prop := N.of_nat (length lines) < 10 ^ 4299.
+
+(* the number a test line gets: the one written, or previous + 1 when none is written or the
+   written one has more than 100 digits (then with an Error event) *)
+Definition num_big (num : option str) : bool :=
+  match num with Some ds => too_long ds | None => false end.
+Definition line_number (last : N) (num : option str) : N :=
+  match num with
+  | Some ds => if too_long ds then last + 1 else digits_val ds
+  | None => last + 1
+  end.
 
 (* ---- layout of lines a TAP producer writes ---------------------------------- *)
 Definition all_digits (ds : str) : bool := forallb is_digit ds.
